@@ -4,6 +4,7 @@ go 1.26
 
 require (
 	github.com/anishathalye/porcupine v1.3.0
+	github.com/deckarep/golang-set/v2 v2.6.0
 	github.com/karagenc/socket.io-go v0.0.0
 	github.com/sasha-s/go-deadlock v0.3.1
 	nhooyr.io/websocket v1.8.11
@@ -11,7 +12,6 @@ require (
 )
 
 require (
-	github.com/deckarep/golang-set/v2 v2.6.0 // indirect
 	github.com/fatih/color v1.17.0 // indirect
 	github.com/fatih/structs v1.1.0 // indirect
 	github.com/karagenc/yeast v0.1.1 // indirect
